@@ -474,6 +474,103 @@ func c01Sig(c c01Case) string {
 		c.Transport, c.Rev, c.B64, c.JSONP, c.AcceptEnc, c.Threshold, c.PMD, c.Upgrade, len(c.Senders), min(n, 20)/5, big, strings.Join(os, "+"), c.PingMs < 1000, c.GateCheck)
 }
 
+// runC01Broadcast: the application encodes each message once and hands the same *packet.Options
+// (carrying the pre-encoded frame) to Send on every session, the way a broadcaster does; some
+// messages are broadcast a second time with the very same options object.
+func runC01Broadcast(rng *rand.Rand, r *rep.Report) (key, msg string, stats map[string]int64) {
+	stats = map[string]int64{}
+	rig.Bubble(r.T(), func() {
+		so := &config.ServerOptions{}
+		so.SetTransports(types.NewSet("polling", "websocket", "webtransport"))
+		so.SetPingInterval(25 * time.Second)
+		w := rig.NewWorld(rig.Options{Server: so})
+		defer w.Finish()
+		nSess := 2 + rng.IntN(4)
+		var cls []*rig.Client
+		for k := 0; k < nSess; k++ {
+			tr := []string{"websocket", "websocket", "webtransport", "polling"}[rng.IntN(4)]
+			cl, err := w.Connect(rig.ClientCfg{Rev: 4, Transport: tr})
+			if err != nil {
+				key, msg = "c01-handshake-failed", err.Error()
+				return
+			}
+			cl.StartReader()
+			cls = append(cls, cl)
+		}
+		time.Sleep(time.Millisecond)
+		rig.Wait()
+		type bm struct {
+			binary  bool
+			payload []byte
+			opts    *packet.Options
+		}
+		var sent []bm
+		nMsg := 2 + rng.IntN(8)
+		for n := 0; n < nMsg; n++ {
+			m := bm{binary: rng.IntN(2) == 0}
+			size := []int{0, 1, 20, 125, 126, 127, 300, 4096, 4097, 70000}[rng.IntN(10)]
+			m.payload = buildPayload(9, n, outMsg{Binary: m.binary, Size: max(size, 8), NonASCII: rng.IntN(3) == 0}, rng)
+			bin, data := refcodec.EncodeFrame(4, refcodec.Packet{Type: refcodec.Message, Data: m.payload, Binary: m.binary}, false)
+			var f types.BufferInterface
+			if bin {
+				f = types.NewBytesBuffer(data)
+			} else {
+				f = types.NewStringBuffer(data)
+			}
+			m.opts = &packet.Options{Compress: rng.IntN(2) == 0, WsPreEncodedFrame: f}
+			sent = append(sent, m)
+			if rng.IntN(3) == 0 && n > 0 {
+				// the same message (same options object) once more
+				sent = append(sent, sent[rng.IntN(len(sent))])
+			}
+		}
+		for _, m := range sent {
+			for _, sid := range w.SocketIDs() {
+				var rd io.Reader
+				if m.binary {
+					rd = types.NewBytesBuffer(append([]byte(nil), m.payload...))
+				} else {
+					rd = types.NewStringBufferString(string(m.payload))
+				}
+				w.SocketByID(sid).Send(rd, m.opts, nil)
+			}
+			if rng.IntN(2) == 0 {
+				time.Sleep(time.Duration(rng.IntN(3)) * time.Millisecond)
+			}
+		}
+		time.Sleep(600 * time.Millisecond)
+		rig.Wait()
+		stats["broadcast_sessions"] += int64(nSess)
+		stats["broadcast_messages"] += int64(len(sent))
+		for k, cl := range cls {
+			got := cl.Messages()
+			if len(got) != len(sent) {
+				key, msg = "c01-message-lost", fmt.Sprintf("broadcast of %d messages (shared options with a pre-encoded frame): session %d (%s) received %d", len(sent), k, cl.Cfg.Transport, len(got))
+				return
+			}
+			for i := range sent {
+				if got[i].P.Binary != sent[i].binary {
+					key, msg = "c01-kind-changed", fmt.Sprintf("broadcast message %d: sent binary=%v, session %d (%s) received binary=%v", i, sent[i].binary, k, cl.Cfg.Transport, got[i].P.Binary)
+					return
+				}
+				if !bytes.Equal(got[i].P.Data, sent[i].payload) {
+					key, msg = "c01-bytes-changed", fmt.Sprintf("broadcast message %d (%d bytes, options object shared by all sessions): session %d (%s) received %d bytes %q", i, len(sent[i].payload), k, cl.Cfg.Transport, len(got[i].P.Data), trunc(got[i].P.Data))
+					return
+				}
+				stats["broadcast_messages_checked"]++
+			}
+			if s := w.SocketByID(cl.Sid); s == nil || s.ReadyState() != "open" {
+				key, msg = "c01-session-closed", fmt.Sprintf("session %d closed during a broadcast", k)
+				return
+			}
+		}
+		for _, cl := range cls {
+			cl.Stop()
+		}
+	})
+	return
+}
+
 func TestC01(t *testing.T) {
 	r := rep.New(t, "C01")
 	defer r.Flush()
@@ -485,6 +582,16 @@ func TestC01(t *testing.T) {
 	if r.Lane == 1%r.Lanes {
 		// whole sessions over real QUIC (OnWebTransportSession, real session object)
 		quicMessages(r, 1, r.N(24, 960))
+	}
+	for i := 0; i < r.N(120, 6000); i++ {
+		key, msg, stats := runC01Broadcast(r.CaseRand(101, i), r)
+		r.Case(fmt.Sprintf("broadcast/%d/%d", stats["broadcast_sessions"], stats["broadcast_messages"]), stats["broadcast_messages_checked"] > 0)
+		for k, v := range stats {
+			r.Obs(k, v)
+		}
+		if key != "" {
+			r.Violation(key, msg, map[string]any{"lane": "broadcast with shared pre-encoded options", "case": i, "seed": r.Seed, "lane_no": r.Lane})
+		}
 	}
 	n := r.N(700, 40000)
 	for i := 0; i < n; i++ {
